@@ -33,15 +33,44 @@ def run_property(prop, tier):
     mod = importlib.import_module("props." + prop)
     status = 0
     fault = None
-    try:
-        mod.run(ctx, rep)
-    except AnchorMissing as e:
-        fault = "ANCHOR-MISSING: %s" % e
-    except extract.ExtractionError as e:
-        fault = "EXTRACTION-FAILED: %s" % e
-    except Exception as e:  # noqa: BLE001  -- an analyser bug is a checker fault, never a property violation
-        import traceback
-        fault = "CHECKER-FAULT: %s: %s\n%s" % (type(e).__name__, e, traceback.format_exc()[-1500:])
+
+    def run_one(c, r):
+        try:
+            mod.run(c, r)
+        except AnchorMissing as e:
+            return "ANCHOR-MISSING: %s" % e
+        except extract.ExtractionError as e:
+            return "EXTRACTION-FAILED: %s" % e
+        except Exception as e:  # noqa: BLE001  -- an analyser bug is a checker fault, never a property violation
+            import traceback
+            return "CHECKER-FAULT: %s: %s\n%s" % (type(e).__name__, e, traceback.format_exc()[-1500:])
+        return None
+    fault = run_one(ctx, rep)
+    if tier == "thorough" and not os.environ.get("VERIF_FACTS_DIR"):
+        # the same analysis over the other build configurations of the workspace (cargo features change which code exists:
+        # checked goto arithmetic in the interpreter, human-readable output in the compiler ...)
+        configs = getattr(mod, "THOROUGH_CONFIGS", ["bytecode_debug", "output_hr"])
+        rep.extra["configurations"] = ["default"] + list(configs)
+        for cfg in configs:
+            r2 = Report(prop, tier)
+            f2 = run_one(Ctx(tier, config=cfg), r2)
+            if f2 and not fault:
+                fault = "[%s] %s" % (cfg, f2)
+            for o in r2.obligations:
+                o = dict(o)
+                # a violation that also exists in the default configuration keeps its key (known findings apply); one that only exists here is new
+                base_keys = {x["key"] for x in rep.obligations}
+                if o["key"] not in base_keys:
+                    o["key"] = "[%s] %s" % (cfg, o["key"])
+                    o["instance"] = "[%s] %s" % (cfg, o["instance"])
+                    rep.obligations.append(o)
+                elif o["status"] == "violated" and not any(x["key"] == o["key"] and x["status"] == "violated" for x in rep.obligations):
+                    o["key"] = "[%s] %s" % (cfg, o["key"])
+                    o["instance"] = "[%s] %s" % (cfg, o["instance"])
+                    rep.obligations.append(o)
+            for (n, c, f) in r2.floors:
+                rep.floors.append(("[%s] %s" % (cfg, n), c, f))
+            rep.analysed_fns |= r2.analysed_fns
 
     known = load_known()
     known_keys = {}
